@@ -225,11 +225,18 @@ def t_colls(triples):
 	return sh
 
 
+def fixtures_reset():
+	from mc import fixtures
+	fixtures.reset_gambit_globals()
+
+
 def t_histories(ki, depth, only=None):
 	"""Call histories in one thread: every sequence (to the depth bound) of calls {valid X, valid Y, valid Z (empty result), a call that raises
 	after some sequences of its collection were already searched (generator that raises / element of a wrong type / non-ASCII text)}.
 	Every valid call must return the signature of ITS input, whatever happened before (state kept between calls, e.g. a recycled accumulator)."""
 	from gambit.sigs.calc import calc_signature
+	import gambit.sigs.calc, gambit.kmers, gambit.seq
+	fixtures_reset()
 	sh = Shard()
 	k, prefix = [(3, b'AT'), (11, b'ATGAC'), (12, b'ATGAC')][ki]
 	ks = _specs(k, prefix)
@@ -257,6 +264,7 @@ def t_histories(ki, depth, only=None):
 	for hist in ([tuple(only)] if only else itertools.product(list(events), repeat=depth)):
 		if not only and not any(e in exp for e in hist[1:]):
 			continue
+		fixtures_reset()          # every history starts from the state of a freshly imported library
 		for step, ev in enumerate(hist):
 			sh.evals += 1
 			try:
